@@ -1,4 +1,363 @@
-pub fn group_law(_t: &mut super::Tally) {}
-pub fn scalar_mul(_t: &mut super::Tally, _seed: u64) {}
-pub fn msm(_t: &mut super::Tally, _seed: u64) {}
-pub fn serialization(_t: &mut super::Tally) {}
+//! C03 (batch / whole-operation), C04, C05, C09/C10 (point codecs), C12 (default subgroup test) on toy curves:
+//! every point of the curve, every ordered pair, several projective rescalings; oracle = textbook affine law.
+use super::{toy::*, Tally};
+use crate::Rng;
+use ark_ec::{
+    models::{short_weierstrass as sw, twisted_edwards as te},
+    scalar_mul::{variable_base::{ChunkedPippenger, HashMapPippenger, VariableBaseMSM}, wnaf::WnafContext, BatchMulPreprocessing, ScalarMul},
+    AffineRepr, CurveGroup, PrimeGroup,
+};
+use ark_ff::{AdditiveGroup, BigInteger, Field, One, PrimeField, Zero};
+use ark_serialize::{CanonicalDeserialize, CanonicalSerialize, Compress, Validate};
+
+fn all<F: PrimeField>() -> Vec<F> {
+    let p = F::MODULUS.as_ref()[0];
+    (0..p).map(|i| F::from(i)).collect()
+}
+
+// ------------------------------------------------------------------ short Weierstrass oracle
+type SwPt<F> = Option<(F, F)>;
+fn sw_add<F: Field>(p: SwPt<F>, q: SwPt<F>, a: F) -> SwPt<F> {
+    match (p, q) {
+        (None, q) => q,
+        (p, None) => p,
+        (Some((x1, y1)), Some((x2, y2))) => {
+            if x1 == x2 && (y1 + y2).is_zero() { return None; }
+            let l = if x1 == x2 && y1 == y2 { (x1.square() * F::from(3u64) + a) * (y1.double()).inverse().unwrap() } else { (y2 - y1) * (x2 - x1).inverse().unwrap() };
+            let x3 = l.square() - x1 - x2;
+            Some((x3, l * (x1 - x3) - y1))
+        },
+    }
+}
+fn sw_mul<F: Field>(mut k: u128, p: SwPt<F>, a: F) -> SwPt<F> {
+    let mut r = None;
+    let mut b = p;
+    while k > 0 { if k & 1 == 1 { r = sw_add(r, b, a); } b = sw_add(b, b, a); k >>= 1; }
+    r
+}
+fn sw_to<P: sw::SWCurveConfig>(p: &sw::Projective<P>) -> SwPt<P::BaseField> { p.into_affine().xy() }
+fn sw_aff<P: sw::SWCurveConfig>(p: SwPt<P::BaseField>) -> sw::Affine<P> { match p { None => sw::Affine::identity(), Some((x, y)) => sw::Affine::new_unchecked(x, y) } }
+fn sw_points<P: sw::SWCurveConfig>() -> Vec<SwPt<P::BaseField>> where P::BaseField: PrimeField {
+    let f = all::<P::BaseField>();
+    let mut v = vec![None];
+    for x in &f { for y in &f { if sw::Affine::<P>::new_unchecked(*x, *y).is_on_curve() { v.push(Some((*x, *y))); } } }
+    v
+}
+fn sw_reps<P: sw::SWCurveConfig>(p: SwPt<P::BaseField>) -> Vec<sw::Projective<P>> where P::BaseField: PrimeField {
+    match p {
+        None => vec![sw::Projective::zero(), sw::Projective::new_unchecked(P::BaseField::from(5u64), P::BaseField::from(3u64), P::BaseField::zero())],
+        Some((x, y)) => [1u64, 2, 5].iter().map(|l| { let l = P::BaseField::from(*l); sw::Projective::new_unchecked(x * l.square(), y * l.square() * l, l) }).collect(),
+    }
+}
+
+fn sw_group<P: sw::SWCurveConfig>(t: &mut Tally, name: &str) where P::BaseField: PrimeField {
+    let a = P::COEFF_A;
+    let pts = sw_points::<P>();
+    let order = pts.len() as u128;
+    for p in &pts {
+        let ap = sw_aff::<P>(*p);
+        t.check(ap.is_on_curve(), || format!("{name}: is_on_curve({p:?})"));
+        t.check(sw_mul(order, *p, a).is_none(), || format!("{name}: oracle sanity"));
+        for (ri, pr) in sw_reps::<P>(*p).iter().enumerate() {
+            t.check(sw_to(pr) == *p, || format!("{name}: into_affine of rep {ri} of {p:?}"));
+            t.check(sw_to(&pr.double()) == sw_add(*p, *p, a), || format!("{name}: double rep {ri} of {p:?}"));
+            t.check(sw_to(&-*pr) == p.map(|(x, y)| (x, -y)), || format!("{name}: neg rep {ri} of {p:?}"));
+            t.check(*pr == sw_reps::<P>(*p)[0] && pr.is_zero() == p.is_none(), || format!("{name}: eq/is_zero across reps of {p:?}"));
+            t.check(*pr == ap && sw::Projective::from(ap) == *pr, || format!("{name}: projective == affine of {p:?}"));
+            for q in &pts {
+                let aq = sw_aff::<P>(*q);
+                let e = sw_add(*p, *q, a);
+                let es = sw_add(*p, q.map(|(x, y)| (x, -y)), a);
+                t.check(sw_to(&(*pr + aq)) == e, || format!("{name}: mixed add rep {ri} of {p:?} + {q:?}"));
+                t.check(sw_to(&(*pr - aq)) == es, || format!("{name}: mixed sub rep {ri} of {p:?} - {q:?}"));
+                t.check((*pr == sw_reps::<P>(*q)[0]) == (p == q), || format!("{name}: eq {p:?} {q:?}"));
+                for (qi, qr) in sw_reps::<P>(*q).iter().enumerate() {
+                    t.check(sw_to(&(*pr + qr)) == e, || format!("{name}: add rep {ri} of {p:?} + rep {qi} of {q:?}"));
+                    t.check(sw_to(&(*pr - qr)) == es, || format!("{name}: sub rep {ri} of {p:?} - rep {qi} of {q:?}"));
+                    let mut s = *pr; s += qr; let mut d = *pr; d -= qr;
+                    t.check(sw_to(&s) == e && sw_to(&d) == es, || format!("{name}: +=/-= {p:?} {q:?}"));
+                }
+                if ri == 0 {
+                    t.check(sw_to(&(ap + aq)) == e && sw_to(&(ap - aq)) == es, || format!("{name}: affine {p:?} +/- affine {q:?}"));
+                }
+            }
+        }
+    }
+    // batch normalisation and Sum: windows of the point list with the identity at every position
+    for start in 0..pts.len().min(12) {
+        for len in 0..5 {
+            let seg: Vec<SwPt<P::BaseField>> = (0..len).map(|k| pts[(start * 3 + k * 5) % pts.len()]).collect();
+            for idpos in 0..=len {
+                let mut seg2 = seg.clone();
+                if idpos < len { seg2[idpos] = None; }
+                let proj: Vec<sw::Projective<P>> = seg2.iter().enumerate().map(|(k, p)| sw_reps::<P>(*p)[k % 2]).collect();
+                let norm = sw::Projective::<P>::normalize_batch(&proj);
+                t.check(norm.len() == len && norm.iter().zip(&seg2).all(|(n, p)| n.xy() == *p), || format!("{name}: normalize_batch({seg2:?})"));
+                let sum: sw::Projective<P> = norm.iter().sum();
+                let e = seg2.iter().fold(None, |acc, p| sw_add(acc, *p, a));
+                t.check(sw_to(&sum) == e, || format!("{name}: Sum({seg2:?})"));
+            }
+        }
+    }
+}
+
+// ------------------------------------------------------------------ twisted Edwards oracle
+fn te_add<F: Field>(p: (F, F), q: (F, F), a: F, d: F) -> (F, F) {
+    let (x1, y1) = p; let (x2, y2) = q;
+    let k = d * x1 * x2 * y1 * y2;
+    ((x1 * y2 + y1 * x2) * (F::one() + k).inverse().unwrap(), (y1 * y2 - a * x1 * x2) * (F::one() - k).inverse().unwrap())
+}
+fn te_mul<F: Field>(mut k: u128, p: (F, F), a: F, d: F) -> (F, F) {
+    let mut r = (F::zero(), F::one());
+    let mut b = p;
+    while k > 0 { if k & 1 == 1 { r = te_add(r, b, a, d); } b = te_add(b, b, a, d); k >>= 1; }
+    r
+}
+fn te_points<P: te::TECurveConfig>() -> Vec<(P::BaseField, P::BaseField)> where P::BaseField: PrimeField {
+    let f = all::<P::BaseField>();
+    let mut v = vec![];
+    for x in &f { for y in &f { if te::Affine::<P>::new_unchecked(*x, *y).is_on_curve() { v.push((*x, *y)); } } }
+    v
+}
+fn te_reps<P: te::TECurveConfig>(p: (P::BaseField, P::BaseField)) -> Vec<te::Projective<P>> where P::BaseField: PrimeField {
+    [1u64, 2, 7].iter().map(|l| { let l = P::BaseField::from(*l); te::Projective::new_unchecked(p.0 * l, p.1 * l, p.0 * p.1 * l, l) }).collect()
+}
+fn te_to<P: te::TECurveConfig>(p: &te::Projective<P>) -> (P::BaseField, P::BaseField) { let a = p.into_affine(); (a.x, a.y) }
+
+fn te_group<P: te::TECurveConfig>(t: &mut Tally, name: &str) where P::BaseField: PrimeField {
+    let (a, d) = (P::COEFF_A, P::COEFF_D);
+    let pts = te_points::<P>();
+    let id = (P::BaseField::zero(), P::BaseField::one());
+    for p in &pts {
+        let ap = te::Affine::<P>::new_unchecked(p.0, p.1);
+        for (ri, pr) in te_reps::<P>(*p).iter().enumerate() {
+            t.check(te_to(pr) == *p, || format!("{name}: into_affine rep {ri} of {p:?}"));
+            t.check(te_to(&pr.double()) == te_add(*p, *p, a, d), || format!("{name}: double rep {ri} of {p:?}"));
+            t.check(te_to(&-*pr) == (-p.0, p.1), || format!("{name}: neg rep {ri} of {p:?}"));
+            t.check(pr.is_zero() == (*p == id) && *pr == te_reps::<P>(*p)[0], || format!("{name}: is_zero/eq reps of {p:?}"));
+            for q in &pts {
+                let aq = te::Affine::<P>::new_unchecked(q.0, q.1);
+                let e = te_add(*p, *q, a, d);
+                let es = te_add(*p, (-q.0, q.1), a, d);
+                t.check(te_to(&(*pr + aq)) == e && te_to(&(*pr - aq)) == es, || format!("{name}: mixed add/sub rep {ri} of {p:?} {q:?}"));
+                t.check((*pr == te_reps::<P>(*q)[1]) == (p == q), || format!("{name}: eq {p:?} {q:?}"));
+                for (qi, qr) in te_reps::<P>(*q).iter().enumerate() {
+                    t.check(te_to(&(*pr + qr)) == e && te_to(&(*pr - qr)) == es, || format!("{name}: add/sub rep {ri} of {p:?}, rep {qi} of {q:?}"));
+                }
+                if ri == 0 { t.check(te_to(&(ap + aq)) == e, || format!("{name}: affine {p:?} + affine {q:?}")); }
+            }
+        }
+    }
+    for start in 0..pts.len() {
+        for len in 0..4 {
+            let seg: Vec<_> = (0..len).map(|k| pts[(start + k * 7) % pts.len()]).collect();
+            let proj: Vec<te::Projective<P>> = seg.iter().enumerate().map(|(k, p)| te_reps::<P>(*p)[k % 3]).collect();
+            let norm = te::Projective::<P>::normalize_batch(&proj);
+            t.check(norm.len() == len && norm.iter().zip(&seg).all(|(n, p)| (n.x, n.y) == *p), || format!("{name}: normalize_batch({seg:?})"));
+            let sum: te::Projective<P> = norm.iter().sum();
+            t.check(te_to(&sum) == seg.iter().fold(id, |acc, p| te_add(acc, *p, a, d)), || format!("{name}: Sum({seg:?})"));
+        }
+    }
+}
+
+pub fn group_law(t: &mut Tally) {
+    sw_group::<Sw13>(t, "y^2=x^3+2/F13");
+    sw_group::<Sw101c>(t, "y^2=x^3+x+3/F101(cofactor 3)");
+    te_group::<Te13>(t, "3x^2+y^2=1+8x^2y^2/F13");
+}
+
+// ------------------------------------------------------------------ scalar multiplication (C04) and subgroup tests (C12 default)
+fn scalar_paths<G: CurveGroup + ScalarMul>(t: &mut Tally, name: &str, pts: &[G], oracle: &dyn Fn(u128, &G) -> G, r: u64) where G::ScalarField: PrimeField {
+    for p in pts {
+        let aff = p.into_affine();
+        for k in (0..(2 * r + 3)).chain([u64::MAX, u64::MAX - 1, 1 << 63]) {
+            let e = oracle(k as u128, p);
+            t.check(p.mul_bigint([k]) == e, || format!("{name}: mul_bigint([{k}])"));
+            t.check(p.mul_bigint([k, 0, 0]) == e, || format!("{name}: mul_bigint([{k},0,0]) (leading zero limbs)"));
+            t.check(aff.mul_bigint([k]) == e, || format!("{name}: affine mul_bigint([{k}])"));
+            if k < 2 * r + 3 {
+                // scalar-field paths multiply by the canonical representative k mod r (P need not lie in the subgroup)
+                let e = oracle((k % r) as u128, p);
+                let s = G::ScalarField::from(k);
+                t.check(*p * s == e && aff * s == e, || format!("{name}: P * Fr({k})"));
+                let mut q = *p; q *= s;
+                t.check(q == e, || format!("{name}: P *= Fr({k})"));
+                for w in 2..7usize {
+                    let ctx = WnafContext::new(w);
+                    t.check(ctx.mul(*p, &s) == e, || format!("{name}: wnaf window {w} k={k}"));
+                    let table = ctx.table(*p);
+                    t.check(ctx.mul_with_table(&table, &s) == Some(e), || format!("{name}: wnaf table window {w} k={k}"));
+                }
+            }
+        }
+        // two-limb scalars: k + j * 2^64
+        for j in 1..3u64 { for k in [0u64, 1, r - 1, u64::MAX] {
+            let kk = (j as u128) << 64 | k as u128;
+            t.check(p.mul_bigint([k, j]) == oracle(kk, p), || format!("{name}: mul_bigint([{k},{j}])"));
+        } }
+        // fixed-base batch multiplication with several table sizings
+        let scalars: Vec<G::ScalarField> = (0..(r.min(40))).map(G::ScalarField::from).collect();
+        let expect: Vec<G> = (0..(r.min(40))).map(|k| oracle(k as u128, p)).collect();
+        for n in [1usize, 2, 3, 5, 8, 33, scalars.len()] {
+            let n = n.min(scalars.len());
+            let got = p.batch_mul(&scalars[..n]);
+            t.check(got.iter().zip(&expect).all(|(g, e)| G::from(g.clone()) == *e) && got.len() == n, || format!("{name}: batch_mul with {n} scalars"));
+            let table = BatchMulPreprocessing::new(*p, n);
+            let got = table.batch_mul(&scalars);
+            t.check(got.iter().zip(&expect).all(|(g, e)| G::from(g.clone()) == *e), || format!("{name}: BatchMulPreprocessing::new(_, {n}).batch_mul(all)"));
+        }
+        for (ns, ssize) in [(1usize, 1usize), (3, 5), (7, 8), (2, 64), (16, 3)] {
+            let table = BatchMulPreprocessing::with_num_scalars_and_scalar_size(*p, ns, ssize);
+            let lim = (1u64 << ssize.min(20)).min(scalars.len() as u64) as usize;
+            let got = table.batch_mul(&scalars[..lim]);
+            t.check(got.iter().zip(&expect).all(|(g, e)| G::from(g.clone()) == *e), || format!("{name}: table(num_scalars={ns}, scalar_size={ssize})"));
+        }
+    }
+}
+
+pub fn scalar_mul(t: &mut Tally, _seed: u64) {
+    {
+        let a = <Sw13 as sw::SWCurveConfig>::COEFF_A;
+        let pts: Vec<sw::Projective<Sw13>> = sw_points::<Sw13>().iter().map(|p| sw_reps::<Sw13>(*p)[1 % sw_reps::<Sw13>(*p).len()]).collect();
+        scalar_paths(t, "Sw13", &pts, &|k, p| sw_aff::<Sw13>(sw_mul(k, sw_to(p), a)).into_group(), 19);
+    }
+    {
+        let a = <Sw101c as sw::SWCurveConfig>::COEFF_A;
+        let all_pts = sw_points::<Sw101c>();
+        let pts: Vec<sw::Projective<Sw101c>> = all_pts.iter().step_by(5).map(|p| sw_reps::<Sw101c>(*p)[0]).collect();
+        scalar_paths(t, "Sw101c", &pts, &|k, p| sw_aff::<Sw101c>(sw_mul(k, sw_to(p), a)).into_group(), 29);
+        // default subgroup membership test and cofactor clearing on EVERY point of the curve (cofactor 3)
+        for p in &all_pts {
+            let ap = sw_aff::<Sw101c>(*p);
+            let in_sub = sw_mul(29, *p, a).is_none();
+            t.check(ap.is_in_correct_subgroup_assuming_on_curve() == in_sub, || format!("Sw101c: subgroup test on {p:?}"));
+            let c = ap.clear_cofactor();
+            t.check(c.xy() == sw_mul(3, *p, a) && c.is_in_correct_subgroup_assuming_on_curve(), || format!("Sw101c: clear_cofactor({p:?})"));
+            if in_sub { t.check(ap.mul_by_cofactor_inv().mul_by_cofactor() == ap, || format!("Sw101c: cofactor * cofactor_inv on {p:?}")); }
+        }
+    }
+    {
+        let (a, d) = (<Te13 as te::TECurveConfig>::COEFF_A, <Te13 as te::TECurveConfig>::COEFF_D);
+        let all_pts = te_points::<Te13>();
+        let pts: Vec<te::Projective<Te13>> = all_pts.iter().map(|p| te_reps::<Te13>(*p)[1]).collect();
+        scalar_paths(t, "Te13", &pts, &|k, p| { let q = te_mul(k, te_to(p), a, d); te::Affine::<Te13>::new_unchecked(q.0, q.1).into_group() }, 5);
+        for p in &all_pts {
+            let ap = te::Affine::<Te13>::new_unchecked(p.0, p.1);
+            let in_sub = te_mul(5, *p, a, d) == (<Te13 as ark_ec::CurveConfig>::BaseField::zero(), <Te13 as ark_ec::CurveConfig>::BaseField::one());
+            t.check(ap.is_in_correct_subgroup_assuming_on_curve() == in_sub, || format!("Te13: subgroup test on {p:?}"));
+            let c = ap.clear_cofactor();
+            t.check((c.x, c.y) == te_mul(4, *p, a, d), || format!("Te13: clear_cofactor({p:?})"));
+        }
+    }
+}
+
+// ------------------------------------------------------------------ multi-scalar multiplication (C05)
+fn msm_paths<G: CurveGroup + VariableBaseMSM>(t: &mut Tally, name: &str, pts: &[G], rng: &mut Rng, r: u64) where G::ScalarField: PrimeField {
+    let bases_all: Vec<G::MulBase> = G::batch_convert_to_mul_base(pts);
+    let naive = |b: &[G::MulBase], s: &[G::ScalarField]| -> G { b.iter().zip(s).map(|(b, s)| G::from(b.clone()) * s).sum() };
+    let special = [0u64, 1, r - 1, 2];
+    for len in (0..12usize).chain([31, 32, 33, 63, 64, 65, 200]) {
+        for round in 0..6 {
+            let bases: Vec<G::MulBase> = (0..len).map(|i| if round == 1 { bases_all[0].clone() } else if round == 2 && i % 3 == 0 { bases_all[0].clone() } else { bases_all[(rng.next() as usize) % bases_all.len()].clone() }).collect();
+            let scalars: Vec<G::ScalarField> = (0..len).map(|i| G::ScalarField::from(if round == 3 { special[i % 4] } else if round == 4 { 0 } else { rng.next() % r })).collect();
+            let e = naive(&bases, &scalars);
+            t.check(G::msm(&bases, &scalars) == Ok(e), || format!("{name}: msm len {len} round {round}"));
+            t.check(G::msm_unchecked(&bases, &scalars) == e, || format!("{name}: msm_unchecked len {len} round {round}"));
+            let bigs: Vec<_> = scalars.iter().map(|s| s.into_bigint()).collect();
+            t.check(G::msm_bigint(&bases, &bigs) == e, || format!("{name}: msm_bigint len {len} round {round}"));
+            // mismatched lengths: checked reports min, unchecked truncates
+            if len >= 2 {
+                t.check(G::msm(&bases[..len - 1], &scalars) == Err(len - 1) && G::msm(&bases, &scalars[..len - 2]) == Err(len - 2), || format!("{name}: msm length mismatch len {len}"));
+                t.check(G::msm_unchecked(&bases[..len - 1], &scalars) == naive(&bases[..len - 1], &scalars), || format!("{name}: msm_unchecked truncation len {len}"));
+                t.check(G::msm_unchecked(&bases, &scalars[..len - 1]) == naive(&bases, &scalars[..len - 1]), || format!("{name}: msm_unchecked truncation (scalars shorter) len {len}"));
+            }
+            t.check(G::msm_chunks(&bases.as_slice(), &scalars.as_slice()) == e, || format!("{name}: msm_chunks len {len} round {round}"));
+            // incremental accumulators, every buffer size 1..len+1
+            if len <= 12 {
+                for buf in 1..(len + 2) {
+                    let mut cp = ChunkedPippenger::<G>::with_size(buf);
+                    let mut hp = HashMapPippenger::<G>::new(buf);
+                    for (b, s) in bases.iter().zip(&scalars) { cp.add(b, s.into_bigint()); hp.add(b, s); }
+                    t.check(cp.finalize() == e, || format!("{name}: ChunkedPippenger buf {buf} len {len} round {round}"));
+                    t.check(hp.finalize() == e, || format!("{name}: HashMapPippenger buf {buf} len {len} round {round}"));
+                }
+            }
+        }
+    }
+}
+pub fn msm(t: &mut Tally, seed: u64) {
+    let mut rng = Rng(seed.wrapping_mul(0x9E3779B97F4A7C15) | 1);
+    let pts: Vec<sw::Projective<Sw13>> = sw_points::<Sw13>().iter().map(|p| sw_reps::<Sw13>(*p)[0]).collect();
+    msm_paths(t, "Sw13", &pts, &mut rng, 19);
+    let pts: Vec<sw::Projective<Sw101>> = sw_points::<Sw101>().iter().map(|p| sw_reps::<Sw101>(*p)[0]).collect();
+    msm_paths(t, "Sw101", &pts, &mut rng, 107);
+    let g = te::Affine::<Te13>::new_unchecked(<Te13 as te::TECurveConfig>::GENERATOR.x, <Te13 as te::TECurveConfig>::GENERATOR.y).into_group();
+    let pts: Vec<te::Projective<Te13>> = (0..5u64).map(|k| g.mul_bigint([k])).collect();
+    msm_paths(t, "Te13(subgroup)", &pts, &mut rng, 5);
+}
+
+// ------------------------------------------------------------------ point codecs (C09 / C10)
+fn codec<A: AffineRepr + CanonicalSerialize + CanonicalDeserialize>(t: &mut Tally, name: &str, pts: &[A], valid: &dyn Fn(&A) -> bool) {
+    for c in [Compress::Yes, Compress::No] {
+        let cs = if matches!(c, Compress::Yes) { "compressed" } else { "uncompressed" };
+        let size = pts[0].serialized_size(c);
+        for p in pts {
+            let mut buf = vec![];
+            let ok = p.serialize_with_mode(&mut buf, c).is_ok();
+            t.check(ok && buf.len() == p.serialized_size(c) && buf.len() == size, || format!("{name}: serialize {cs} size"));
+            for v in [Validate::Yes, Validate::No] {
+                let vs = if matches!(v, Validate::Yes) { "checked" } else { "unchecked" };
+                let r = A::deserialize_with_mode(&buf[..], c, v);
+                let in_sub = valid(p);
+                match r {
+                    Ok(q) => t.check(q == *p && (in_sub || matches!(v, Validate::No)), || format!("{name}: round trip {cs} {vs}")),
+                    Err(_) => t.check(!in_sub && matches!(v, Validate::Yes), || format!("{name}: valid point rejected {cs} {vs}")),
+                }
+            }
+            let pg = p.into_group();
+            let mut buf2 = vec![];
+            t.check(pg.serialize_with_mode(&mut buf2, c).is_ok() && buf2 == buf && pg.serialized_size(c) == size, || format!("{name}: projective serialization {cs}"));
+            let back = <A::Group as CanonicalDeserialize>::deserialize_with_mode(&buf[..], c, Validate::No);
+            t.check(back.ok() == Some(pg), || format!("{name}: projective round trip {cs}"));
+        }
+        // every byte string of the advertised length, and every truncation: Err or a value, never a panic;
+        // with validation a returned point is on the curve and in the subgroup
+        if size <= 2 {
+            for code in 0..(1u32 << (8 * size)) {
+                let bytes: Vec<u8> = (0..size).map(|i| (code >> (8 * i)) as u8).collect();
+                for cut in 0..=size {
+                    let r = std::panic::catch_unwind(|| A::deserialize_with_mode(&bytes[..cut], c, Validate::Yes));
+                    match r {
+                        Err(_) => t.check(false, || format!("{name}: deserialize {cs} PANICS on {:?}", &bytes[..cut])),
+                        Ok(Ok(q)) => t.check(cut == size && valid(&q) && pts.contains(&q), || format!("{name}: deserialize {cs} accepted {:?} -> invalid point", &bytes[..cut])),
+                        Ok(Err(_)) => t.check(true, || String::new()),
+                    }
+                }
+            }
+        }
+    }
+}
+pub fn serialization(t: &mut Tally) {
+    let a13 = <Sw13 as sw::SWCurveConfig>::COEFF_A;
+    let pts: Vec<sw::Affine<Sw13>> = sw_points::<Sw13>().iter().map(|p| sw_aff::<Sw13>(*p)).collect();
+    codec(t, "Sw13", &pts, &|_| true);
+    let _ = a13;
+    let a = <Sw101c as sw::SWCurveConfig>::COEFF_A;
+    let raw = sw_points::<Sw101c>();
+    let pts: Vec<sw::Affine<Sw101c>> = raw.iter().map(|p| sw_aff::<Sw101c>(*p)).collect();
+    codec(t, "Sw101c", &pts, &|p| sw_mul(29, p.xy(), a).is_none());
+    let (ta, td) = (<Te13 as te::TECurveConfig>::COEFF_A, <Te13 as te::TECurveConfig>::COEFF_D);
+    let pts: Vec<te::Affine<Te13>> = te_points::<Te13>().iter().map(|p| te::Affine::new_unchecked(p.0, p.1)).collect();
+    codec(t, "Te13", &pts, &|p| te_mul(5, (p.x, p.y), ta, td) == (<Te13 as ark_ec::CurveConfig>::BaseField::zero(), <Te13 as ark_ec::CurveConfig>::BaseField::one()));
+    // field elements of toy extension fields: round trip and uniqueness for all byte strings
+    let mut n = 0u32;
+    for code in 0..65536u32 {
+        let bytes = [(code & 0xff) as u8, (code >> 8) as u8];
+        if let Ok(x) = F49::deserialize_compressed(&bytes[..]) {
+            let mut out = vec![];
+            t.check(x.serialize_compressed(&mut out).is_ok() && out == bytes, || format!("F7^2: bytes {bytes:?} decode but re-encode to {out:?}"));
+            n += 1;
+        }
+    }
+    t.check(n == 49, || format!("F7^2: {n} of 65536 two-byte strings decode, expected 49"));
+}
